@@ -174,6 +174,98 @@ docsis_geometry(void)
                                 }
         g_geom = NULL;
 }
+/* co-scheduled batches: the same n jobs of unequal lengths (different numbers of full blocks, partial last blocks) are submitted
+ * together and flushed on every variant; each job's destination, tag, next_iv and status must equal what the first variant
+ * produced for it - the multi-buffer schedulers of the variants have 1/4/8/16 lanes, so the same batch is cut into lane sets
+ * differently on each of them */
+#define BN 17
+#define BLMAX 300
+typedef struct {
+        uint8_t dst[BLMAX + 96], tag[64], niv[16];
+        int st;
+} bsave_t;
+static void
+batch_equal(void)
+{
+        static wb_t *BB;
+        static bsave_t SV[BN], CUR[BN];
+        static const uint32_t BLENS[20] = { 11, 19, 8, 64, 33, 1, 16, 100, 7, 255, 17, 129, 9, 48, 65, 15, 31, 5, 24, 77 };
+        static const int NS[4] = { 2, 5, 9, 17 };
+        if (!BB)
+                BB = malloc(sizeof(wb_t) * BN);
+        const uint32_t unit = A->bitlen ? 8 : 1;
+        const int nrot = tier_thorough() ? 20 : 4;
+        for (g_dir = 1; g_dir >= (A->kind == AK_HASH ? 1 : 0); g_dir--)
+                for (int q = 0; q < 4; q++)
+                        for (int rot = 0; rot < nrot; rot++) {
+                                const int n = NS[q];
+                                uint32_t len[BN];
+                                int okb = 1;
+                                for (int i = 0; i < n; i++) {
+                                        uint32_t l = BLENS[(i * 7 + rot * 3) % 20] * unit;
+                                        if (l < A->minlen)
+                                                l = A->minlen;
+                                        while (!alg_len_ok(g_a, l) && l < A->maxlen)
+                                                l++;
+                                        if (!alg_len_ok(g_a, l) || span(l) > BLMAX)
+                                                okb = 0;
+                                        len[i] = l;
+                                }
+                                if (!okb)
+                                        continue;
+                                int first = 1;
+                                for (int v = 0; v < NVARIANTS; v++) {
+                                        if (!variant_usable(v))
+                                                continue;
+                                        IMB_MGR *m = M[v];
+                                        int got = 0;
+                                        for (int i = 0; i < n; i++) {
+                                                inputs(&BB[i], (uint32_t) span(len[i]), (i + rot) % 3, len[i]);
+                                                BB[i].src[2] ^= (uint8_t) (i * 29); /* jobs of equal length still differ */
+                                                item_t it;
+                                                mk(&it, &BB[i], v, g_dir, len[i]);
+                                                IMB_JOB *j = X_GET_NEXT(m);
+                                                alg_fill(m, j, &it);
+                                                j->user_data = (void *) (uintptr_t) (i + 1);
+                                                IMB_JOB *r = X_SUBMIT(m);
+                                                while (r) {
+                                                        const int k = (int) (uintptr_t) r->user_data - 1;
+                                                        if (k >= 0 && k < n)
+                                                                CUR[k].st = (int) r->status, got++;
+                                                        r = X_GET_COMPLETED(m);
+                                                }
+                                        }
+                                        IMB_JOB *r;
+                                        while ((r = X_FLUSH(m)) != NULL) {
+                                                const int k = (int) (uintptr_t) r->user_data - 1;
+                                                if (k >= 0 && k < n)
+                                                        CUR[k].st = (int) r->status, got++;
+                                        }
+                                        if (got != n)
+                                                viol("batch-not-exactly-once", v, len[0], n, "jobs handed back != jobs submitted (x = handed back)", got);
+                                        for (int i = 0; i < n; i++) {
+                                                const size_t nb = span(len[i]);
+                                                const uint8_t *d = A->inplace_only ? BB[i].src : BB[i].dst;
+                                                memcpy(CUR[i].dst, d, nb + 64);
+                                                memcpy(CUR[i].tag, BB[i].tag, 64);
+                                                memcpy(CUR[i].niv, BB[i].niv, 16);
+                                                n_eval++;
+                                                if (first) {
+                                                        SV[i] = CUR[i];
+                                                        continue;
+                                                }
+                                                n_cmp++;
+                                                if (CUR[i].st != SV[i].st)
+                                                        viol("batch-status-differs", v, len[i], n, "co-scheduled job: status differs from the first variant (x = job index)", i);
+                                                else if (A->kind != AK_HASH && memcmp(CUR[i].dst, SV[i].dst, nb + 64))
+                                                        viol("batch-output-differs", v, len[i], n, "co-scheduled job: output differs from the first variant (iv_class = jobs in the batch, x = job index)", i);
+                                                else if (memcmp(CUR[i].tag, SV[i].tag, 64) || memcmp(CUR[i].niv, SV[i].niv, 16))
+                                                        viol("batch-tag-differs", v, len[i], n, "co-scheduled job: tag / next_iv differs from the first variant (x = job index)", i);
+                                        }
+                                        first = 0;
+                                }
+                        }
+}
 static void
 sweep_row(long item, void *arg)
 {
@@ -326,6 +418,8 @@ sweep_row(long item, void *arg)
                 }
         if (A->family == F_DOCSISCRC)
                 docsis_geometry();
+        if (A->family != F_PON)
+                batch_equal();
         stat_add("evaluations", n_eval);
         stat_add("cross_variant_comparisons", n_cmp);
         stat_add("recovery_jobs", n_dec);
